@@ -166,7 +166,12 @@ func runSkip(res *Result, drv *Driver, seed uint64, n int, tier string, only int
 			impl = &skipImpl[string]{m: skiplist.NewSkipListMap[string, string](skiplist.OrderedComparator[string]{}),
 				conv: func(b []byte) string { return string(b) }, back: func(s string) []byte { return []byte(s) }}
 		default:
-			impl = &skipImpl[[]byte]{m: skiplist.NewSkipListMap[[]byte, string](skiplist.BytesComparator{}),
+			var bc skiplist.Comparator[[]byte] = skiplist.BytesComparator{}
+			if sc := []int{1, 3, 1000}[r.Intn(3)]; sc != 1 {
+				bc = scaledBytesCmp{sc}
+				res.Stat("cmp:magnitudes-other-than-1")
+			}
+			impl = &skipImpl[[]byte]{m: skiplist.NewSkipListMap[[]byte, string](bc),
 				conv: func(b []byte) []byte { return b }, back: func(b []byte) []byte { return b }}
 		}
 		// reference map
@@ -297,6 +302,11 @@ func runSkip(res *Result, drv *Driver, seed uint64, n int, tier string, only int
 	return nil
 }
 
+// a consistent comparator that does not restrict itself to -1/0/+1 (the documented contract is <0, 0, >0)
+type scaledBytesCmp struct{ k int }
+
+func (c scaledBytesCmp) Compare(a, b []byte) int { return c.k * bytes.Compare(a, b) }
+
 // ---------------------------------------------------------------------------------------------
 // stream "pq": k-way merge heap (C16)
 
@@ -375,7 +385,12 @@ func runPq(res *Result, drv *Driver, seed uint64, n int, tier string, only int) 
 			res.NoteNontrivial(cs)
 		}
 		res.Sample(cs)
-		q, err := pq.NewPriorityQueue[[]byte, []byte, int](skiplist.BytesComparator{}, its)
+		var cmp skiplist.Comparator[[]byte] = skiplist.BytesComparator{}
+		if sc := []int{1, 1, 2, 7, 1000}[r.Intn(5)]; sc != 1 {
+			cmp = scaledBytesCmp{sc}
+			res.Stat("cmp:magnitudes-other-than-1")
+		}
+		q, err := pq.NewPriorityQueue[[]byte, []byte, int](cmp, its)
 		if err != nil {
 			return err
 		}
